@@ -171,4 +171,12 @@ theorem shape_ServeHTTP_ok : Oidc.Shapes.Shape_ServeHTTP := by unfold Oidc.Shape
 theorem shape_isUserAuthenticated_ok : Oidc.Shapes.Shape_isUserAuthenticated := by unfold Oidc.Shapes.Shape_isUserAuthenticated; rfl
 theorem shape_refreshToken_ok : Oidc.Shapes.Shape_refreshToken := by unfold Oidc.Shapes.Shape_refreshToken; rfl
 
+
+/-! ## Program text of the helpers these theorems also rest on (constructors, accessors, token endpoint, configuration) -/
+theorem text_TraefikOidc_GetNewTokenWithRefreshToken_ok : Oidc.Shapes.Text_TraefikOidc_GetNewTokenWithRefreshToken := by unfold Oidc.Shapes.Text_TraefikOidc_GetNewTokenWithRefreshToken; rfl
+theorem text_TraefikOidc_getNewTokenWithRefreshToken_ok : Oidc.Shapes.Text_TraefikOidc_getNewTokenWithRefreshToken := by unfold Oidc.Shapes.Text_TraefikOidc_getNewTokenWithRefreshToken; rfl
+theorem text_TraefikOidc_exchangeTokens_ok : Oidc.Shapes.Text_TraefikOidc_exchangeTokens := by unfold Oidc.Shapes.Text_TraefikOidc_exchangeTokens; rfl
+theorem text_SessionData_SetEmail_ok : Oidc.Shapes.Text_SessionData_SetEmail := by unfold Oidc.Shapes.Text_SessionData_SetEmail; rfl
+theorem text_SessionData_GetEmail_ok : Oidc.Shapes.Text_SessionData_GetEmail := by unfold Oidc.Shapes.Text_SessionData_GetEmail; rfl
+
 end Oidc.Props.C08
